@@ -320,6 +320,11 @@ let handle (toks : string list) : string =
             let s = { l_target = nint t; l_cwd = (match cw.[0] with 'm' -> RMissing | 'd' -> RDir | _ -> RFile (num cw)) } in
             let d' = sync_link m s d in
             (d', (show d' ^ (if wrote_through m s d then "!" else "")) :: acc)
+        | [k] when k.[0] = 'F' || k.[0] = 'D' ->
+            (* the source entry is a regular file (F<content>) or a real directory (D) in this run *)
+            let e = if k.[0] = 'F' then SAFile (num k) else SADir in
+            let (d', w) = sync_any true m e d in
+            (d', (show d' ^ (if w then "!" else "")) :: acc)
         | _ -> failwith "lk step") (dent dinit, []) steps in
       String.concat "," (List.rev outs)
   | ["XA"; c0; hist] ->
